@@ -2,6 +2,7 @@
    fix_offset (inside retrieve) is GENERATED from the C++ sources. *)
 Require Import MV.Base.Prelude MV.Base.CInt MV.Base.Index MV.Base.BorderSpec.
 Require Import MV.Gen.Scalar_gen MV.Model.Filter MV.Model.Filters MV.Proof.ConvProof MV.Proof.FiltersProof.
+Require Import MV.Proof.TmBool.
 
 (* the samples a filter kernel gathers at pixel p are exactly those selected by the neighbourhood under
    the mathematical border rule (any dimension, mode, neighbourhood shape incl. even / larger than the image) *)
@@ -42,6 +43,13 @@ Theorem C07_template_match_is_ssd : forall ty m f t p, wf_ity ty -> valid_mode m
   ssd_spec m f t p <= tmax ty ->
   tm_at (DInt ty) m f t p = ssd_spec m f t p.
 Proof. exact tm_at_spec. Qed.
+
+(* template_match on boolean images: bool arithmetic turns the accumulated sum into an OR, so the result is 1 exactly where the
+   sum of squared differences of the definition is non-zero -- every dimension, border mode and template *)
+Theorem C07_template_match_bool_is_nonzero_ssd : forall m f t p, valid_mode m -> shape_ok (shape f) ->
+  Forall bit01 (data f) -> Forall bit01 (data t) ->
+  tm_at DBool m f t p = if ssd_spec m f t p =? 0 then 0 else 1.
+Proof. exact tm_at_bool. Qed.
 
 (* find: marked <=> the template occurs there, including flush with the bottom/right edge and template = image *)
 Theorem C07_find_marks_iff_occurs : forall f t y x, shape f = [nthZ 0 (shape f) 0; nthZ 0 (shape f) 1] ->
